@@ -15,10 +15,10 @@ sys.path.insert(0, os.path.join(os.path.dirname(os.path.dirname(os.path.dirname(
 import schemawalk
 
 PROP = 'C03'
-COQ_TARGETS = ['theories/CodecFacts.vo', 'theories/CodecWf.vo', 'gen/Schemas.vo', 'theories/SchemaTables.vo']
+COQ_TARGETS = ['theories/CodecFacts.vo', 'theories/CodecWf.vo', 'theories/CodecTotal.vo', 'gen/Schemas.vo', 'theories/SchemaTables.vo']
 COQ_IMPORTS = ('From Bac Require Import Base.\nFrom Bac Require Import Tag.\nFrom Bac Require Import Schema.\n'
                'From Bac Require Import Codec.\nFrom BacGen Require Import Schemas.')   # one library per line: much faster to load
-TABLE_OBLIGATIONS = ['C03_all_wf', 'C03_supported_or_listed', 'C03_registries_shape']
+TABLE_OBLIGATIONS = ['C03_all_wf', 'C03_supported_or_listed', 'C03_all_supported', 'C03_registries_shape']
 RULE = ('cases: for each of the 58 registered PDUs and every Sequence/Choice class of apdu.py/basetypes.py (all, every run): presence '
         'patterns of its optional elements (all if <= 8 (quick) / 64 (thorough), else all-absent, all-present, each single one, '
         'random), every choice alternative, list lengths 0..3, nested values random to the depth of the type, leaves from boundary pools; '
